@@ -4,6 +4,7 @@
 # Writes /verif/seeded/<Cxx>-<v>/{patch.diff,demo_test.go,NOTES.md,verify.log}; prints a one-line verdict.
 id=$1; v=$2
 src=/verif/seeded/$id-$v
+[ -f $src/patch.diff ] || src=/tmp/seeds8/$id/$v
 [ -f $src/patch.diff ] || src=/tmp/seeds7/$id/$v
 [ -f $src/patch.diff ] || src=/tmp/seeds6/$id/$v
 [ -f $src/patch.diff ] || src=/tmp/seeds5/$id/$v
